@@ -40,6 +40,8 @@ type facts struct {
 	GOARCH  string            `json:"goarch"`
 	Error   string            `json:"error,omitempty"`
 	Consts  map[string]string `json:"consts"`
+	// AllUnix: every integer constant internal/unix exports on this target (a constant added later is covered without a list here)
+	AllUnix map[string]string `json:"all_unix"`
 	Files   []string          `json:"files"`
 	Stubs   []stubFact        `json:"stubs"`
 	Imports []string          `json:"imports"`
@@ -114,6 +116,18 @@ func main() {
 				out.Consts[as] = fmt.Sprintf("%d", v)
 			} else {
 				out.Consts[as] = c.Val().ExactString()
+			}
+		}
+	}
+	if pkg, err := imp.Import(root + "/internal/unix"); err == nil {
+		out.AllUnix = map[string]string{}
+		for _, n := range pkg.Scope().Names() {
+			if c, ok := pkg.Scope().Lookup(n).(*types.Const); ok && c.Val().Kind() == constant.Int {
+				if v, exact := constant.Uint64Val(c.Val()); exact {
+					out.AllUnix[n] = fmt.Sprintf("%d", v)
+				} else {
+					out.AllUnix[n] = c.Val().ExactString()
+				}
 			}
 		}
 	}
